@@ -7,7 +7,7 @@ per-dimension arithmetic of __pyx_memoryview_slice_memviewslice (have_* flags, c
 division), the SliceIndex template and both unellipsify routines, with two repair switches that
 classify every deviation of the transcription ("clamp", "div" hazards).  TLC explores: the whole 1-D
 quantifier domain on contiguous / strided / reversed inputs (full1), chains a[e1][e2] (chain), and
-1..3-D products of a per-axis menu with None / Ellipsis placements (nd).  MemSlice_refute.cfg must
+1..3-D products of a per-axis menu with None / Ellipsis placements (nd), all in one run per tier.  MemSlice_refute.cfg must
 refute "transcription = reference".
 
 Binding B1: every published case (state) is executed on code compiled from the working tree:
@@ -31,17 +31,15 @@ import core
 import lib_memslice as L
 
 PROP = "C16"
-FUNCS_PER_MODULE = 260
+FUNCS_PER_MODULE = 300
 
 NEEDED = ["err:IndexError", "err:ValueError", "err:none", "hz:none", "hz:clamp", "hz:div", "empty", "nonempty",
           "item:i", "item:s", "item:n", "item:e", "neg_step", "omitted_bound", "depth:1", "depth:2",
           "nd_in:1", "nd_in:2", "nd_in:3", "lay:c", "lay:s2", "lay:r", "ndim_out:0", "ndim_out:1", "ndim_out:2", "ndim_out:3"]
 
 TIERS = {
-    "quick": {"cfgs": [("full1", "MemSlice_full1_q"), ("chain", "MemSlice_chain_q"), ("nd", "MemSlice_nd_q")],
-              "consts": 160, "tuple_forms": 1500, "min_cases": 30000},
-    "thorough": {"cfgs": [("full1", "MemSlice_full1_t"), ("chain", "MemSlice_chain_t"), ("chain", "MemSlice_chain_t3"),
-                          ("nd", "MemSlice_nd_t")],
+    "quick": {"cfgs": [("cases", "MemSlice_quick")], "consts": 100, "tuple_forms": 1500, "min_cases": 20000},
+    "thorough": {"cfgs": [("cases", "MemSlice_thorough"), ("cases", "MemSlice_chain3")],
                  "consts": 1500, "tuple_forms": 20000, "min_cases": 200000},
 }
 
@@ -68,6 +66,24 @@ def obs_class(got, want, pred, hz):
     return "wrong-result"
 
 
+def _tlc(cfg, **kw):
+    """core.tlc, with an optional development cache (C16_DEV_CACHE=<dir>) keyed by the spec's and cfg's mtime"""
+    cache = os.environ.get("C16_DEV_CACHE")
+    if not cache:
+        return core.tlc("MemSlice", cfg=cfg, **kw)
+    import pickle
+    stamp = "%d_%d" % (os.path.getmtime(os.path.join(core.SPEC, "MemSlice.tla")), os.path.getmtime(os.path.join(core.SPEC, cfg + ".cfg")))
+    fn = os.path.join(cache, "%s_%s.pkl" % (cfg, stamp))
+    if os.path.exists(fn):
+        with open(fn, "rb") as f:
+            return pickle.load(f)
+    r = core.tlc("MemSlice", cfg=cfg, **kw)
+    os.makedirs(cache, exist_ok=True)
+    with open(fn, "wb") as f:
+        pickle.dump(r, f)
+    return r
+
+
 def run(tier, seed):
     t0 = time.time()
     rng = random.Random(seed)
@@ -79,7 +95,7 @@ def run(tier, seed):
     nw = max(2, core.NCPU // 3)
     jobs = list(T["cfgs"]) + [("refute", "MemSlice_refute")]
     with concurrent.futures.ThreadPoolExecutor(max_workers=len(jobs)) as ex:
-        futs = [(part, cfg, ex.submit(core.tlc, "MemSlice", cfg=cfg, workers=nw, timeout=3000 if tier == "thorough" else 900,
+        futs = [(part, cfg, ex.submit(_tlc, cfg, workers=nw, timeout=3000 if tier == "thorough" else 900,
                                       deadlock=False, heap="6g" if tier == "thorough" else None)) for part, cfg in jobs]
         crash_probe = ex.submit(core.build_many, [core.BuildSpec("c16probe", CRASH_PROBE, cython_only=True)], core.subdir("c16probe"), 1)
         results = [(part, cfg, f.result()) for part, cfg, f in futs]
@@ -105,7 +121,6 @@ def run(tier, seed):
             if rec.get("input"):
                 inputs[(tuple(rec["lens"]), tuple(rec["lays"]))] = rec
             else:
-                rec["part"] = part
                 cases.append(rec)
     log(t0, "TLC done: %d states, %d cases, %d input buffers" % (states, len(cases), len(inputs)))
     kl = L.classes(cases)
@@ -117,15 +132,13 @@ def run(tier, seed):
         core.die("only %d cases published" % len(cases))
 
     # ------------------------------------------------------------------ functions and modules
-    funcs = {}     # key -> (name, source)
+    funcs = {}     # key -> (fid, source, C type, number of arguments)
     order = []
 
-    def func_for(key, make):
+    def func_for(key, make, ctype, nargs):
         if key not in funcs:
-            name = "f%d" % len(funcs)
-            funcs[key] = (name, make(name))
+            funcs[key] = (len(funcs), make("f%d" % len(funcs)), ctype, nargs)
             order.append(key)
-        return funcs[key][0]
 
     plan = []      # per case: list of (path, key, args)
     n_untyped = 0
@@ -135,11 +148,11 @@ def run(tier, seed):
         p = []
         if L.typed_supported(nd, skel):
             key = ("t", nd, False, skel)
-            func_for(key, lambda name, nd=nd, skel=skel: L.typed_function(name, L.TYPES[nd], skel))
+            func_for(key, lambda name, nd=nd, skel=skel: L.typed_function(name, L.TYPES[nd], skel, nd), L.TYPES[nd], L.nargs_of(skel))
             p.append(("typed-runtime", key))
             if nd == 1 and c["lays"] == ["c"]:
                 key = ("t", nd, True, skel)
-                func_for(key, lambda name, skel=skel: L.typed_function(name, L.CONTIG1, skel))
+                func_for(key, lambda name, skel=skel: L.typed_function(name, L.CONTIG1, skel, 1), L.CONTIG1, L.nargs_of(skel))
                 p.append(("typed-contig", key))
         else:
             n_untyped += 1
@@ -155,18 +168,24 @@ def run(tier, seed):
     chosen += core.sample([t for t in tkeys if t not in set(chosen)], T["consts"] - len(chosen), rng)
     for t in chosen:
         key = ("k", t)
-        func_for(key, lambda name, t=t: L.const_function(name, L.TYPES[1], list(t)))
+        func_for(key, lambda name, t=t: L.const_function(name, L.TYPES[1], list(t)), L.TYPES[1], 0)
         for i in triples[t]:
             plan[i].append(("constant", key))
     modof = {}
     modules = []
+    DISP = {L.TYPES[1]: "t1", L.CONTIG1: "t1c", L.TYPES[2]: "t2", L.TYPES[3]: "t3"}
     for j, key in enumerate(order):
         m = j // FUNCS_PER_MODULE
         if m == len(modules):
             modules.append([])
-        modules[m].append(funcs[key][1])
+        modules[m].append(key)
         modof[key] = m
-    specs = [core.BuildSpec("c16m%d" % m, L.MODULE_HEAD + "\n".join(srcs)) for m, srcs in enumerate(modules)]
+    specs = []
+    for m, keys in enumerate(modules):
+        src = [L.MODULE_HEAD] + [funcs[k][1] for k in keys]
+        for ctype, dname in DISP.items():
+            src.append(L.dispatcher(dname, ctype, [(funcs[k][0], "f%d" % funcs[k][0], funcs[k][3]) for k in keys if funcs[k][2] == ctype]))
+        specs.append(core.BuildSpec("c16m%d" % m, "\n".join(src)))
     log(t0, "%d functions in %d modules" % (len(funcs), len(specs)))
     builds = core.build_many(specs)
     bad = [b for b in builds if not b.ok]
@@ -178,22 +197,24 @@ def run(tier, seed):
                             "transitions": states, "traces_validated_against_impl": 0, "samples": ["build failed: " + bad[0].name]},
                             time.time() - t0, violations=len(bad))
         return rc
-    log(t0, "builds done")
+    log(t0, "builds done (cython %s s, cc %s s)" % ([b.cython_s for b in builds], [b.cc_s for b in builds]))
 
     # ------------------------------------------------------------------ call tables
     tabs = [([], []) for _ in builds]     # (calls, meta) per module; meta = (kind, case index | input key, path)
     for key, rec in sorted(inputs.items()):
-        tabs[0][0].append(["in_ref", [L.arr_py(*key), {"t": list(key[0])}, {"t": list(key[1])}]])
+        if any(not (0 <= e < rec["base"]) for e in rec["el"]):
+            core.die("input view of the model leaves its base: %r" % (rec,))
+        tabs[0][0].append(["in_ref", [{"t": list(key[0])}, {"t": list(key[1])}]])
         tabs[0][1].append(("P-in", key, None))
     tuple_forms = set(core.sample([i for i, c in enumerate(cases) if all(len(e) == 1 for e in c["hist"])], T["tuple_forms"], rng))
     n_unsafe = 0
     for i, c in enumerate(cases):
         nd = len(c["lens"])
-        arr = L.arr_py(c["lens"], c["lays"])
+        arr = L.arr_py(c["lens"], c["lays"], exporter=True)     # code under test: exact buffer of the model
         m = modof[plan[i][0][1]] if plan[i] else 0
         cl, meta = tabs[m]
         es = L.hist_py(c["hist"])
-        cl.append(["np_ref", [arr, es]])
+        cl.append(["np_ref", [L.arr_py(c["lens"], c["lays"]), es]])
         meta.append(("P-np", i, None))
         if L.mv_applicable(nd, c["hist"]):
             cl.append(["mv_ref", [arr, es]])
@@ -213,10 +234,10 @@ def run(tier, seed):
                 meta.append(("C", i, "object"))
         for path, key in plan[i]:
             cl2, meta2 = tabs[modof[key]]
-            cl2.append([funcs[key][0], [arr] + (L.values(c["hist"]) if key[0] == "t" else [])])
+            cl2.append([DISP[funcs[key][2]], [funcs[key][0], arr] + (L.values(c["hist"]) if key[0] == "t" else [])])
             meta2.append(("C", i, path))
     with concurrent.futures.ThreadPoolExecutor(max_workers=len(builds)) as ex:
-        obs = list(ex.map(lambda bt: calls.run_calls(bt[0], bt[1][0], prelude=L.PRELUDE, timeout=1800), zip(builds, tabs)))
+        obs = list(ex.map(lambda bt: calls.run_calls(bt[0], bt[1][0], prelude=L.prelude(inputs), timeout=1800), zip(builds, tabs)))
     log(t0, "%d calls done" % sum(len(t[0]) for t in tabs))
 
     # ------------------------------------------------------------------ verdicts
@@ -228,7 +249,7 @@ def run(tier, seed):
         for call, (kind, ref, path), got in zip(cl, meta, ob):
             if kind == "P-in":
                 rec = inputs[ref]
-                want = json.dumps([rec["off"], rec["shape"], rec["strides"], rec["el"], rec["base"]])
+                want = json.dumps([True, rec["shape"], rec["strides"], rec["el"], rec["base"]])
                 if got != want:
                     rep.spec_drift("input buffer of the model vs NumPy construction", {"input": ref, "spec": want, "numpy": got})
                 continue
